@@ -7,30 +7,6 @@ import (
 // H-treesize: one add* step of the checkout-expansion fold from an arbitrary
 // accumulator and an arbitrary child (C04 arithmetic, C05 saturation).
 
-const vpCap32 = uint64(1<<32 - 1)
-const vpCap64 = ^uint64(0)
-
-func vpMin(a, b uint64) uint64 { return vp_IteU64(a < b, a, b) }
-func vpMax(a, b uint64) uint64 { return vp_IteU64(a > b, a, b) }
-
-// vpSat64 returns min(a+b, 2^64-1).
-func vpSat64(a, b uint64) uint64 {
-	s := a + b
-	return vp_IteU64(s < a, vpCap64, s)
-}
-
-func vpFreeTreeSize(p string) TreeSize {
-	return TreeSize{
-		MaxPathDepth:           counts.Count32(vp_U32(p + ".depth")),
-		MaxPathLength:          counts.Count32(vp_U32(p + ".plen")),
-		ExpandedTreeCount:      counts.Count32(vp_U32(p + ".trees")),
-		ExpandedBlobCount:      counts.Count32(vp_U32(p + ".blobs")),
-		ExpandedBlobSize:       counts.Count64(vp_U64(p + ".bytes")),
-		ExpandedLinkCount:      counts.Count32(vp_U32(p + ".links")),
-		ExpandedSubmoduleCount: counts.Count32(vp_U32(p + ".subs")),
-	}
-}
-
 func vpName() (string, uint64) {
 	L := vp_U64("namelen")
 	vp_Assume(L >= 1)
